@@ -524,11 +524,12 @@ def proposalIndex (id : Str) : Option Nat :=
   else if up == str% "NAMEPRICE" then some 4
   else none
 
-/-- `validateById` -/
+/-- `validateById`: zero is refused for every issue; the upper bound is on the magnitude (`CmpAbs`, since fix
+b0b4c2db: the value that comes into force is `|c|`). -/
 def validateById (e : Env) (issue : Nat) (c : Int) : Bool :=
   if c == 0 then false
-  else if issue == 1 then !(c > 100)
-  else !(c > (e.maxAER : Int))
+  else if issue == 1 then !(c.natAbs > 100)
+  else !(c.natAbs > e.maxAER)
 
 /-- `validateForVote` with the issue's old record. -/
 def validateForVote (e : Env) (issue : Nat) : Outcome Unit := do
